@@ -201,7 +201,7 @@ func c09Run(c c09Case) (fail *vlib.Failure, rs c09Stats) {
 	finished := make(chan struct{})
 	go func() { wg.Wait(); close(finished) }()
 	close(start)
-	lastProgress, lastSeen := time.Now(), int64(-1)
+	stall, lastSeen := vlib.StartPatience(c09Patience), int64(-1)
 watch:
 	for {
 		select {
@@ -210,13 +210,14 @@ watch:
 		case <-time.After(20 * time.Millisecond):
 		}
 		if p := atomic.LoadInt64(&progress); p != lastSeen {
-			lastSeen, lastProgress = p, time.Now()
+			lastSeen = p
+			stall.Reset()
 			continue
 		}
-		if time.Since(lastProgress) > c09Patience {
+		if stall.Expired() {
 			f := vlib.Failf("no allocate/free call completed for %v while %d workers are running: a call blocks forever", c09Patience, len(c.Progs))
 			atomic.AddInt64(&violations, 1)
-			giveUp := time.Now().Add(c09Patience)
+			giveUp := vlib.StartPatience(c09Patience)
 			for {
 				alloc.mutex.Release()
 				select {
@@ -224,7 +225,7 @@ watch:
 					return f, rs
 				case <-time.After(100 * time.Microsecond):
 				}
-				if time.Now().After(giveUp) {
+				if giveUp.Expired() {
 					vlib.Die("C09", c, f)
 				}
 			}
@@ -348,9 +349,7 @@ func c09LockDiscipline(outside []uint64) *vlib.Failure {
 		if early {
 			return vlib.Failf("%s completed while another task held the allocator lock (it does not take the lock)", which)
 		}
-		select {
-		case <-done:
-		case <-time.After(c09Patience):
+		if !vlib.StartPatience(c09Patience).Wait(done) {
 			vlib.Die("C09", nil, vlib.Failf("%s did not complete within %v after the allocator lock was released", which, c09Patience))
 		}
 	}
